@@ -1,9 +1,11 @@
 (* Properties_C15.v — C15: ISO-8601 parsing yields the denoted value or throws; it never wraps.
-   Statements only; proofs in Chrono*.v.
+   Statements only; proofs in Chrono*.v.  Model: ChronoModel.v at /repo beee810.
 
-   _refuted / _outside pairs where the faithful model falsifies the full statement:
-     defect_N1  SafeDurationCast of a negative count into an unsigned coarser target (wrapped value)
-     defect_N2  SafeDurationCast of a uint64 count above INT64_MAX into a signed coarser target (signed overflow) *)
+   Open input classes (kept as _refuted / _outside pairs or Examples):
+     K45  general-ratio branch of SafeDurationCast (unreachable with the standard units)
+     K41 / K42  lenient acceptance outside the documented grammar (field widths, text after 'Z', repeated or
+          reordered duration components, text after white space)
+     K48  8-bit representations: std::chrono::round / floor wrap *)
 From BS Require Import Base ChronoSpec ChronoModel ChronoArith ChronoDecimal ChronoSweep ChronoCalendar ChronoYear
   ChronoSafe ChronoSafeAdd ChronoText ChronoTp ChronoTpParse ChronoTpRt ChronoTs ChronoRefute.
 Local Open Scope Z_scope.
@@ -39,26 +41,26 @@ Print Assumptions T_C15_fraction_example.
 
 (* ---- SafeDurationCast.  cast_spec from to c :=  the result is the exact value and fits the target,
         or out_of_range and no fitting exact value exists; nothing else (no UB, no other error).
-        Full strength: forall from to c (periods positive, reduced ratio with num = 1 or den = 1,
-        representations int8/int32/int64/uint64, c representable) -> cast_spec from to c.  FALSE: ---- *)
+        Full strength: forall from to c (periods positive, representations int8/int32/int64/uint64, c
+        representable) -> cast_spec from to c.  Still FALSE in the general-ratio branch (K45: reduced ratio
+        with num <> 1 and den <> 1 — not reachable with the standard units): ---- *)
 Theorem T_C15_safe_cast_refuted :
-  (exists from to c, rep4 (d_rep from) /\ rep4 (d_rep to) /\ wf_dty from /\ wf_dty to /\ simple_ratio from to /\
-     fits (d_rep from) c = true /\ ~ cast_spec from to c) /\
-  safe_cast SecT (mkD U64 60 1) (-16) = Ok 307445734561825860 /\
-  safe_cast (mkD U64 1 1) (mkD I64 60 1) 18446744073709551600 = UB UBOverflow.
+  exists from to c, rep4 (d_rep from) /\ rep4 (d_rep to) /\ wf_dty from /\ wf_dty to /\
+     fits (d_rep from) c = true /\ ~ cast_spec from to c.
 Proof.
-  split; [|exact (conj w_N1 w_N2)].
-  exists SecT, (mkD U64 60 1), (-16). unfold rep4, wf_dty, simple_ratio. cbn [d_rep d_num d_den SecT].
-  repeat split; auto; try lia; try (right; reflexivity).
-  unfold cast_spec. rewrite w_N1. unfold exact_cast. cbn. intros [_ H]. lia.
+  exists (mkD I64 2 3), (mkD I64 1 1), 1. unfold rep4, wf_dty. cbn [d_rep d_num d_den].
+  repeat split; auto; try lia.
+  unfold cast_spec. rewrite w_K45. unfold exact_cast. cbn. intros [_ H]. lia.
 Qed.
 Print Assumptions T_C15_safe_cast_refuted.
 
+(* outside that branch (reduced ratio with num = 1 or den = 1, i.e. every pair of the units ns .. weeks):
+   exact, for every pair of representations, incl. negative counts into unsigned targets and uint64 counts
+   above INT64_MAX (the classes N1 / N2 repaired by 30f5d3e) *)
 Theorem T_C15_safe_cast_outside : forall from to c,
   rep4 (d_rep from) -> rep4 (d_rep to) -> wf_dty from -> wf_dty to ->
   d_num from * d_den to <= 4611686018427387904 -> d_den from * d_num to <= 4611686018427387904 ->
-  fits (d_rep from) c = true -> simple_ratio from to ->
-  ~ defect_N1 from to c -> ~ defect_N2 from to c -> cast_spec from to c.
+  fits (d_rep from) c = true -> simple_ratio from to -> cast_spec from to c.
 Proof. exact safe_cast_correct. Qed.
 Print Assumptions T_C15_safe_cast_outside.
 
@@ -66,14 +68,11 @@ Example T_C15_safe_cast_example :
   safe_cast (mkD I64 604800 1) (mkD I32 1 1) 3550 = Ok 2147040000 /\
   safe_cast (mkD I64 604800 1) (mkD I32 1 1) 3551 = Err OutOfRange /\
   safe_cast (mkD U64 1 1) (mkD I8 60 1) 7620 = Ok 127 /\
-  safe_cast (mkD U64 1 1) (mkD I8 60 1) 7621 = Err OutOfRange.
+  safe_cast (mkD U64 1 1) (mkD I8 60 1) 7621 = Err OutOfRange /\
+  safe_cast SecT (mkD U64 60 1) (-16) = Err OutOfRange /\
+  safe_cast (mkD U64 1 1) (mkD I64 60 1) 18446744073709551600 = Ok 307445734561825860.
 Proof. repeat split; vm_compute; reflexivity. Qed.
 Print Assumptions T_C15_safe_cast_example.
-
-(* the general-ratio branch (not reachable with the standard units) silently returns 0 *)
-Example T_C15_safe_cast_general_refuted : safe_cast (mkD I64 2 3) (mkD I64 1 1) 1 = Ok 0.
-Proof. exact w_N3. Qed.
-Print Assumptions T_C15_safe_cast_general_refuted.
 
 (* ---- SafeAddDuration (both overloads): the exact sum or out_of_range; never UB, never wrapped ---- *)
 Theorem T_C15_safe_add_dur : forall D target src c,
@@ -108,15 +107,60 @@ Theorem T_C15_round : forall P R ns, rep3 R -> -999999999 <= ns <= 999999999 -> 
 Proof. exact dround_rep3. Qed.
 Print Assumptions T_C15_round.
 
-(* ---- the calendar step of To(string) -> time_point never overflows for |year| <= 10^16 and equals
-        days_from_civil (the era guard and the int64/unsigned arithmetic are exact there) ---- *)
+(* ---- the calendar step of To(string) -> time_point (year guard, era guard, dayInEra guard, checked
+        int64 / unsigned arithmetic) never overflows and equals days_from_civil for every date whose day
+        number fits int64 with the 719468 days of head room the era guard needs ---- *)
 Theorem T_C15_date_steps : forall A y m d (K : Z -> outcome A),
-  -10000000000000000 <= y <= 10000000000000000 -> 1 <= m <= 12 -> 1 <= d <= 31 ->
+  -30000000000000000 <= y <= 30000000000000000 -> 1 <= m <= 12 -> 1 <= d <= 31 ->
+  -9223372036854775808 <= days_from_civil y m d <= 9223372036854775807 - 719468 ->
   date_steps y m d K = K (days_from_civil y m d).
 Proof. intros A. exact (@date_steps_ok A). Qed.
 Print Assumptions T_C15_date_steps.
 
-(* near +-2^63 years the same arithmetic is undefined behaviour *)
-Example T_C15_year_overflow : tp_parse Pd I64 text_N4 = UB UBOverflow /\ tp_parse Ps I64 text_N4b = UB UBOverflow.
-Proof. exact (conj w_N4 w_N4b). Qed.
-Print Assumptions T_C15_year_overflow.
+(* near -2^63 years the guards added by d4af9ec report out_of_range (was signed overflow) *)
+Example T_C15_year_guard : tp_parse Pd I64 text_N4 = Err OutOfRange /\ tp_parse Ps I64 text_N4b = Err OutOfRange.
+Proof. exact r_N4. Qed.
+Print Assumptions T_C15_year_guard.
+
+(* 29 February only in leap years (5f3f75a); -P9223372036854775808D (beee810) *)
+Example T_C15_repaired : tp_parse Ps I64 text_F34 = Err InvalidArgument /\ tp_parse Ps I64 text_F34b = Ok 1709164800 /\
+  dur_parse Pd I64 text_N5 = Ok (-9223372036854775808).
+Proof. destruct r_F34 as [H1 H2]. exact (conj H1 (conj H2 r_N5)). Qed.
+Print Assumptions T_C15_repaired.
+
+(* still open, as observed behaviour of the model: lenient grammar (K41, K42) and int8 wrap (K48) *)
+Example T_C15_open_classes :
+  tp_parse Ps I64 text_K41 = Ok 1672531200 /\ dur_parse Ps I64 text_K42 = Ok 3601 /\
+  dur_parse Pms I8 text_K48 = Ok (-55).
+Proof. exact (conj w_K41 (conj w_K42 (proj1 w_K48))). Qed.
+Print Assumptions T_C15_open_classes.
+
+(* ======================================================================================================
+   NOT PROVED (kept here at full strength; nothing below is claimed by the obligations above)
+
+   T_C15_tp_classify :
+     forall P R s, (R = I64 \/ R = I32 \/ R = U64) ->
+       match tp_parse P R s with
+       | Ok t => exists ns, tp_denotes s ns /\ count_of P (ns / 10^9) (ns mod 10^9) = Some t /\ fits R t = true
+       | Err InvalidArgument => ~ tp_grammar s
+       | Err OutOfRange => exists ns, tp_denotes s ns /\
+                             (count_of P (ns / 10^9) (ns mod 10^9) = None \/ forall t, count_of P .. = Some t -> fits R t = false)
+       | _ => False     (never UB, never RuntimeError, never a wrapped count)
+       end
+     (tp_grammar / tp_denotes / count_of: ChronoSpec.v; only the fraction of a second is rounded, half to even).
+     Known to be FALSE as stated because of K41 (texts outside the documented grammar are accepted), so the
+     final form will be a _refuted / _outside pair with the lenient texts as the class.
+     Proved building blocks: T_C15_fraction_exact, T_C15_round, T_C15_date_steps, T_C15_safe_add_tp,
+     T_C15_safe_cast_outside, ChronoText.parse_printed (ParseIsoUtc on the canonical text of any valid
+     date-time returns its fields), ChronoTpRt.tp_of_parts_ok (the fields of a representable instant give back
+     its count) — i.e. the "documented text of a representable instant -> Ok of its count" direction for the
+     canonical texts; not proved: the inversion (Ok / InvalidArgument / OutOfRange => grammar facts) and
+     non-canonical texts (',' separator, fewer fraction digits, explicit '+').
+
+   T_C15_dur_classify : the same shape for durations with dur_grammar / dur_denotes (uint64 magnitudes, sign,
+     unit letter by section, fraction only in the seconds part, negative into unsigned = OutOfRange); FALSE as
+     stated because of K42; nothing proved beyond the shared building blocks.
+
+   Representation domains: int8_t targets are outside T_C15_round (K48); time_t / tm / char16_t / char32_t
+   targets and inputs: correspondence only.
+   ====================================================================================================== *)
